@@ -1,8 +1,11 @@
 /-
-Candidates of the pair strategies keep the protected prefix and suffix (C05).
+Testcase-level invariants of the pair strategies: every proposal, every basis and the final best
+satisfy any predicate `T` that holds of the original and is closed under `rmslice` with ordered
+non-negative bounds.  Instances: the protected prefix/suffix (C05) and "the original with
+reducible atoms deleted" (C04).
 -/
-import LithiumModel.Pairs
-import LithiumProofs.Minimize
+import LithiumProofs.PairsLoop
+import LithiumProofs.MinimizeLog
 
 namespace Strat
 open Testcase
@@ -14,180 +17,160 @@ theorem rmslice_frame (t : Testcase) (s e : Int) :
   | none => exact ⟨rfl, rfl⟩
   | some p => exact ⟨rfl, rfl⟩
 
-structure Frame (orig : Testcase) (it : It) : Prop where
-  best : it.best.before = orig.before ∧ it.best.after = orig.after
-  atts : ∀ a ∈ it.atts, a.cand.before = orig.before ∧ a.cand.after = orig.after
+/-- `T` holds of the best testcase and of the candidate and basis of every proposal -/
+structure AllT (T : Testcase → Prop) (it : It) : Prop where
+  best : T it.best
+  atts : ∀ a ∈ it.atts, T a.cand ∧ T a.base
 
-theorem try_frame (orig : Testcase) (it : It) (o : Oracle) (c : Testcase) (mk : Resp → Att)
-    (h : Frame orig it) (hc : c.before = orig.before ∧ c.after = orig.after) (hmk : ∀ r, (mk r).cand = c) :
-    Frame orig (it.try o c mk).2 := by
+/-- closed under the deletions the strategies perform -/
+def RmClosed (T : Testcase → Prop) : Prop :=
+  ∀ t s e, T t → (0 : Int) ≤ s → s ≤ e → T (t.rmslice s e)
+
+theorem allT_flag (T : Testcase → Prop) (it : It) (h : AllT T it) (b : Bool) :
+    AllT T { it with outOfFuel := b } ∧ AllT T { it with internalError := b } ∧
+    AllT T { it with deadlineStop := b } :=
+  ⟨⟨h.best, h.atts⟩, ⟨h.best, h.atts⟩, ⟨h.best, h.atts⟩⟩
+
+theorem try_allT (T : Testcase → Prop) (it : It) (o : Oracle) (c : Testcase) (mk : Resp → Att)
+    (h : AllT T it) (hc : T c) (hmk : ∀ r, (mk r).cand = c ∧ (mk r).base = it.best) :
+    AllT T (it.try o c mk).2 := by
   obtain ⟨-, -, -, f4⟩ := try_flags it o c mk
-  have hatts : ∀ a ∈ (it.try o c mk).2.atts, a.cand.before = orig.before ∧ a.cand.after = orig.after := by
+  have hatts : ∀ a ∈ (it.try o c mk).2.atts, T a.cand ∧ T a.base := by
     intro a ha
     rw [f4] at ha
     simp only [List.mem_cons] at ha
     rcases ha with rfl | ha
-    · rw [hmk]; exact hc
+    · rw [(hmk _).1, (hmk _).2]; exact ⟨hc, h.best⟩
     · exact h.atts a ha
   rcases try_spec it o c mk with ⟨-, -, hb, -, -⟩ | ⟨-, -, -, hb, -, -⟩ | ⟨-, -, -, hb, -, -⟩
   · exact ⟨by rw [hb]; exact h.best, hatts⟩
   · exact ⟨by rw [hb]; exact hc, hatts⟩
   · exact ⟨by rw [hb]; exact h.best, hatts⟩
 
-theorem frame_flag (orig : Testcase) (it : It) (h : Frame orig it) (b : Bool) :
-    Frame orig { it with outOfFuel := b } ∧ Frame orig { it with internalError := b } ∧
-    Frame orig { it with deadlineStop := b } :=
-  ⟨⟨h.best, h.atts⟩, ⟨h.best, h.atts⟩, ⟨h.best, h.atts⟩⟩
-
-theorem aroundCand_frame (orig : Testcase) (cs : Nat) (st : AroundSt) (it : It) (h : Frame orig it) :
-    (aroundCand cs st it).before = orig.before ∧ (aroundCand cs st it).after = orig.after := by
+theorem aroundCand_T (T : Testcase → Prop) (hT : RmClosed T) (cs : Nat) (st : AroundSt) (it : It)
+    (h : T it.best) : T (aroundCand cs st it) := by
   unfold aroundCand
   simp only
-  obtain ⟨a1, a2⟩ := rmslice_frame (it.best.rmslice ((min it.best.len (st.chunkStart + cs) : Nat) : Int)
-    ((min it.best.len (min it.best.len (st.chunkStart + cs) + cs) : Nat) : Int)) (max 0 ((st.chunkStart : Int) - cs)) (st.chunkStart : Int)
-  obtain ⟨b1, b2⟩ := rmslice_frame it.best ((min it.best.len (st.chunkStart + cs) : Nat) : Int)
-    ((min it.best.len (min it.best.len (st.chunkStart + cs) + cs) : Nat) : Int)
-  exact ⟨by rw [a1, b1]; exact h.best.1, by rw [a2, b2]; exact h.best.2⟩
+  apply hT _ _ _ (hT _ _ _ h (by omega) (by omega)) (by omega) (by omega)
 
-theorem aroundLoop_frame (orig : Testcase) (o : Oracle) (clk : Clock) (stopAt : Option Nat) (cs nc : Nat) :
-    ∀ (fuel : Nat) (st : AroundSt) (it : It) (any : Bool), Frame orig it →
-      Frame orig (aroundLoop o clk stopAt cs nc fuel st it any).1 := by
-  intro fuel
-  induction fuel with
-  | zero => intro st it any h; exact (frame_flag orig it h true).1
-  | succ f ih =>
-    intro st it any h
-    unfold aroundLoop
-    simp only
-    split
-    · exact h
-    · split
-      · exact h
-      · have key := try_frame orig it o (aroundCand cs st it) (aroundMk cs nc st it) h
-          (aroundCand_frame orig cs st it h) (fun _ => rfl)
-        split
-        · rename_i it2 heq
-          rw [heq] at key
-          split
-          · split
-            · exact ih _ _ _ key
-            · exact key
-          · split
-            · exact key
-            · split
-              · exact ih _ _ _ key
-              · exact key
-        · rename_i r it2 hne heq
-          rw [heq] at key
-          split
-          · exact ih _ _ _ key
-          · exact key
+theorem balCand_T (T : Testcase → Prop) (hT : RmClosed T) (cs : Nat) (st : BalSt) (it : It) (rhs : Nat)
+    (h : T it.best) (hg : st.chunkStart < it.best.len) :
+    T (balCand1 cs st it) ∧ T (balCand2 cs st it rhs) := by
+  unfold balCand1 balCand2
+  simp only
+  refine ⟨hT _ _ _ h (by omega) (by omega), ?_⟩
+  exact hT _ _ _ (hT _ _ _ h (by omega) (by omega)) (by omega) (by omega)
 
-theorem aroundPass_frame (orig : Testcase) (o : Oracle) (clk : Clock) (stopAt : Option Nat) (cs : Nat) (it : It)
-    (h : Frame orig it) : Frame orig (aroundPass o clk stopAt cs it).1 := by
+/-- any pass whose proposals satisfy `T` and are built on the current best keeps `AllT` -/
+theorem pLoop_allT {σ : Type} (T : Testcase → Prop) (pd : PassDef σ) (o : Oracle) (clk : Clock)
+    (stopAt : Option Nat)
+    (hact : ∀ st it c mk, T it.best → pd.guard st it = true → pd.act st it = .propose c mk →
+      T c ∧ ∀ r, (mk r).cand = c ∧ (mk r).base = it.best)
+    (fuel : Nat) (st : σ) (it : It) (any : Bool) (h : AllT T it) :
+    AllT T (pLoop pd o clk stopAt fuel st it any).1 :=
+  pLoop_induct pd o clk stopAt (fun _ it _ => AllT T it) (fun it _ => AllT T it)
+    (fun _ _ _ h => h) (fun _ it _ h => (allT_flag T it h true).1)
+    (fun _ it _ h _ _ => (allT_flag T it h true).2.1)
+    (fun _ _ _ _ h _ _ _ _ => h)
+    (fun st it _ c mk h hg _ ha =>
+      have k := hact st it c mk h.best hg ha
+      have r := try_allT T it o c mk h k.1 k.2
+      ⟨r, fun _ _ => r⟩)
+    fuel st it any h
+
+theorem aroundPass_allT (T : Testcase → Prop) (hT : RmClosed T) (o : Oracle) (clk : Clock)
+    (stopAt : Option Nat) (cs : Nat) (it : It) (h : AllT T it) : AllT T (aroundPass o clk stopAt cs it).1 := by
   unfold aroundPass
   simp only
   split
   · exact h
-  · exact aroundLoop_frame orig o clk stopAt cs _ _ _ _ _ h
+  · unfold aroundLoop
+    apply pLoop_allT T _ o clk stopAt _ _ _ _ _ h
+    intro st it c mk hb _ ha
+    simp only [aroundDef, PAct.propose.injEq] at ha
+    obtain ⟨rfl, rfl⟩ := ha
+    exact ⟨aroundCand_T T hT cs st it hb, fun _ => ⟨rfl, rfl⟩⟩
 
-theorem balCand_frame (orig : Testcase) (cs : Nat) (st : BalSt) (it : It) (rhs : Nat) (h : Frame orig it) :
-    ((balCand1 cs st it).before = orig.before ∧ (balCand1 cs st it).after = orig.after) ∧
-    ((balCand2 cs st it rhs).before = orig.before ∧ (balCand2 cs st it rhs).after = orig.after) := by
-  unfold balCand1 balCand2
-  simp only
-  refine ⟨?_, ?_⟩
-  · obtain ⟨b1, b2⟩ := rmslice_frame it.best ((st.chunkStart : Nat) : Int) ((min it.best.len (st.chunkStart + cs) : Nat) : Int)
-    exact ⟨by rw [b1]; exact h.best.1, by rw [b2]; exact h.best.2⟩
-  · obtain ⟨a1, a2⟩ := rmslice_frame
-      (it.best.rmslice ((min it.best.len (st.chunkStart + cs * countS st.summary st.lhs rhs) : Nat) : Int)
-        ((min it.best.len (min it.best.len (st.chunkStart + cs * countS st.summary st.lhs rhs) + cs) : Nat) : Int))
-      ((st.chunkStart : Nat) : Int) ((min it.best.len (st.chunkStart + cs) : Nat) : Int)
-    obtain ⟨b1, b2⟩ := rmslice_frame it.best
-      ((min it.best.len (st.chunkStart + cs * countS st.summary st.lhs rhs) : Nat) : Int)
-      ((min it.best.len (min it.best.len (st.chunkStart + cs * countS st.summary st.lhs rhs) + cs) : Nat) : Int)
-    exact ⟨by rw [a1, b1]; exact h.best.1, by rw [a2, b2]; exact h.best.2⟩
-
-theorem balLoop_frame (orig : Testcase) (o : Oracle) (clk : Clock) (stopAt : Option Nat) (cs nc : Nat)
-    (curly square normal : List Int) :
-    ∀ (fuel : Nat) (st : BalSt) (it : It) (any : Bool), Frame orig it →
-      Frame orig (balLoop o clk stopAt cs nc curly square normal fuel st it any).1 := by
-  intro fuel
-  induction fuel with
-  | zero => intro st it any h; exact (frame_flag orig it h true).1
-  | succ f ih =>
-    intro st it any h
-    unfold balLoop
-    simp only
-    split
-    · exact h
-    · split
-      · exact h
-      · split
-        · exact (frame_flag orig it h true).2.1
-        · split
-          · -- a balanced chunk alone
-            have key := try_frame orig it o (balCand1 cs st it) (balMk1 cs nc st it) h
-              (balCand_frame orig cs st it 0 h).1 (fun _ => rfl)
-            split
-            · rename_i it2 heq
-              rw [heq] at key
-              split
-              · exact ih _ _ _ key
-              · exact key
-            · rename_i r it2 hne heq
-              rw [heq] at key
-              split
-              · exact ih _ _ _ key
-              · exact key
-          · split
-            · split
-              · exact ih _ _ _ h
-              · exact h
-            · generalize (findRhs st.summary curly square normal (List.drop (st.lhs + 1) st.summary) st.lhs
-                (curly.getD st.lhs 0, square.getD st.lhs 0, normal.getD st.lhs 0)).1 = rhs
-              have key := try_frame orig it o (balCand2 cs st it rhs) (balMk2 cs nc st it rhs) h
-                (balCand_frame orig cs st it rhs h).2 (fun _ => rfl)
-              split
-              · rename_i it2 heq
-                rw [heq] at key
-                split
-                · exact ih _ _ _ key
-                · exact key
-              · rename_i r it2 hne heq
-                rw [heq] at key
-                split
-                · exact ih _ _ _ key
-                · exact key
-
-theorem balPass_frame (orig : Testcase) (o : Oracle) (clk : Clock) (stopAt : Option Nat) (cs : Nat) (it : It)
-    (h : Frame orig it) : Frame orig (balPass o clk stopAt cs it).1 := by
+theorem balPass_allT (T : Testcase → Prop) (hT : RmClosed T) (o : Oracle) (clk : Clock)
+    (stopAt : Option Nat) (cs : Nat) (it : It) (h : AllT T it) : AllT T (balPass o clk stopAt cs it).1 := by
   unfold balPass
   simp only
   split
   · exact h
-  · exact balLoop_frame orig o clk stopAt cs _ _ _ _ _ _ _ _ h
+  · unfold balLoop
+    apply pLoop_allT T _ o clk stopAt _ _ _ _ _ h
+    intro st it c mk hb hg ha
+    have hg' : st.chunkStart < it.best.len := by simpa [balDef] using hg
+    simp only [balDef, balAct] at ha
+    split at ha
+    · exact absurd ha (by simp)
+    · split at ha
+      · simp only [PAct.propose.injEq] at ha
+        obtain ⟨rfl, rfl⟩ := ha
+        exact ⟨(balCand_T T hT cs st it 0 hb hg').1, fun _ => ⟨rfl, rfl⟩⟩
+      · split at ha
+        · exact absurd ha (by simp)
+        · simp only [PAct.propose.injEq] at ha
+          obtain ⟨rfl, rfl⟩ := ha
+          exact ⟨(balCand_T T hT cs st it _ hb hg').2, fun _ => ⟨rfl, rfl⟩⟩
 
-theorem pairsOuter_frame (orig : Testcase) (cfg : Cfg) (clk : Clock) (stopAt : Option Nat)
+theorem pairsOuter_allT (T : Testcase → Prop) (cfg : Cfg) (clk : Clock) (stopAt : Option Nat)
     (pass : Nat → It → It × Bool) (final : Nat)
-    (hpass : ∀ cs it, Frame orig it → Frame orig (pass cs it).1) :
-    ∀ (fuel cs : Nat) (it : It), Frame orig it → Frame orig (pairsOuter cfg clk stopAt pass final fuel cs it) := by
-  intro fuel
-  induction fuel with
-  | zero => intro cs it h; exact (frame_flag orig it h true).1
-  | succ f ih =>
-    intro cs it h
-    unfold pairsOuter
-    simp only
-    have hp := hpass cs it h
-    split
-    · exact hp
-    · split
-      · exact (frame_flag orig _ hp true).2.2
-      · split
-        · exact ih _ _ hp
-        · split
-          · exact hp
-          · exact ih _ _ hp
+    (hpass : ∀ cs it, AllT T it → AllT T (pass cs it).1) (fuel cs : Nat) (it : It) (h : AllT T it) :
+    AllT T (pairsOuter cfg clk stopAt pass final fuel cs it) :=
+  pairsOuter_induct cfg clk stopAt pass final (fun _ it => AllT T it) (AllT T)
+    (fun _ it h => (allT_flag T it h true).1)
+    (fun cs it h _ => hpass cs it h)
+    (fun cs it h => (allT_flag T _ (hpass cs it h) true).2.2)
+    (fun cs it h _ _ _ _ => hpass cs it h)
+    (fun cs it h _ _ => hpass cs it h)
+    (fun cs it h _ _ => hpass cs it h)
+    fuel cs it h
+
+theorem around_allT (T : Testcase → Prop) (hT : RmClosed T) (cfg : Cfg) (o : Oracle) (clk : Clock)
+    (t : Testcase) (h : T t) : AllT T (around cfg o clk t) := by
+  unfold around
+  exact pairsOuter_allT T cfg clk _ _ _ (fun cs it h => aroundPass_allT T hT o clk _ cs it h) _ _ _
+    ⟨h, by intro a ha; simp at ha⟩
+
+theorem balanced_allT (T : Testcase → Prop) (hT : RmClosed T) (cfg : Cfg) (o : Oracle) (clk : Clock)
+    (t : Testcase) (h : T t) : AllT T (balanced cfg o clk t) := by
+  unfold balanced
+  exact pairsOuter_allT T cfg clk _ _ _ (fun cs it h => balPass_allT T hT o clk _ cs it h) _ _ _
+    ⟨h, by intro a ha; simp at ha⟩
+
+/-! ### the two instances -/
+
+theorem frame_closed (orig : Testcase) :
+    RmClosed (fun t => t.before = orig.before ∧ t.after = orig.after) := by
+  intro t s e h _ _
+  obtain ⟨a, b⟩ := rmslice_frame t s e
+  exact ⟨by rw [a]; exact h.1, by rw [b]; exact h.2⟩
+
+/-- `isDel_rmslice` without the upper bound on `e` (out-of-range values are clamped) -/
+theorem isDel_rmslice' (orig t : Testcase) (h : IsDel orig t) (s e : Int) (h0 : 0 ≤ s) (hse : s ≤ e) :
+    IsDel orig (t.rmslice s e) := by
+  obtain ⟨h1, h2, h3, h4, h5⟩ := h
+  have hab : clamp t.len (some s) 0 ≤ clamp t.len (some e) t.len := by
+    simp only [clamp]
+    rw [if_neg (by omega : ¬ s < 0), if_neg (by omega : ¬ e < 0)]
+    split <;> split <;> omega
+  obtain ⟨t', e1, c2, c3, c1, c4, -⟩ := rmslice_spec t h3 (some s) (some e) hab
+  have : t.rmslice s e = t' := by simp [rmslice, e1]
+  rw [this]
+  refine ⟨by rw [c2, h1], by rw [c3, h2], c1, ?_, ?_⟩
+  · rw [c4]; exact (eraseRanks_sublist _ _ _ _).trans h4
+  · rw [c4, eraseRanks_filter]; exact h5
+
+theorem isDel_closed (orig : Testcase) : RmClosed (IsDel orig) :=
+  fun t s e h h0 hse => isDel_rmslice' orig t h s e h0 hse
+
+structure Frame (orig : Testcase) (it : It) : Prop where
+  best : it.best.before = orig.before ∧ it.best.after = orig.after
+  atts : ∀ a ∈ it.atts, a.cand.before = orig.before ∧ a.cand.after = orig.after
+
+theorem frame_of_allT (orig : Testcase) (it : It)
+    (h : AllT (fun t => t.before = orig.before ∧ t.after = orig.after) it) : Frame orig it :=
+  ⟨h.best, fun a ha => (h.atts a ha).1⟩
 
 end Strat
